@@ -5,6 +5,7 @@ import (
 	"context"
 	"fmt"
 	"github.com/ipni/go-libipni/dagsync/ipnisync"
+	"github.com/multiformats/go-multiaddr"
 	"strings"
 	"time"
 
@@ -300,6 +301,10 @@ type c04Cfg struct {
 	noAddrs   bool  // the faulty attempt names the (unknown) publisher without any address
 	// generalHook: the subscriber's hook comes from MakeGeneralBlockHook
 	generalHook bool
+	// deadThenBare: the faulty attempt names an address where nothing
+	// listens (and only that), the retry names no address at all: the
+	// subscriber still knows the address that worked for the pre-sync
+	deadThenBare bool
 }
 
 func (c c04Cfg) String() string {
@@ -375,6 +380,10 @@ func c04Plan(r *simkit.Run, c Cfg, w *World) (c04Cfg, []faultPlan) {
 		}
 		if tp.Chance(1, 10, "noAddrs") {
 			cfg.noAddrs, cfg.preSynced = true, 0
+		} else if cfg.preSynced > 0 && !cfg.discovery && cfg.dead == 0 && !cfg.twoLive && tp.Chance(1, 6, "deadThenBare") {
+			// (one known address only: the order in which a peerstore hands
+			// out several is not the scheduler's to decide)
+			cfg.deadThenBare = true
 		}
 		np := 1 + tp.Choose(2, "nfaults")
 		if tp.Chance(1, 6, "manyfaults") {
@@ -464,6 +473,13 @@ func runFaultSync(r *simkit.Run, c Cfg, mode string, planner planFunc) {
 	trigger := func(head cid.Cid, explicit bool, label string) *attempt {
 		a := &attempt{}
 		target := pub.AddrInfo()
+		if cfg.deadThenBare && label == "faulty" {
+			target.Addrs = []multiaddr.Multiaddr{must(multiaddr.NewMultiaddr("/ip4/10.0.9.9/tcp/3104/http"))}
+			r.Fault("dead-address-named")
+		}
+		if cfg.deadThenBare && label == "retry" {
+			target.Addrs = nil
+		}
 		if cfg.noAddrs && label == "faulty" {
 			// the caller, or the announcement, names a publisher that the
 			// subscriber has never synced and gives no address for it: the
@@ -614,6 +630,14 @@ func runFaultSync(r *simkit.Run, c Cfg, mode string, planner planFunc) {
 	// Phase 2: heal, then sync the same head again through the same
 	// subscriber: must succeed and converge to the fault-free result.
 	sw.disarm()
+	if cfg.deadThenBare && !r.Failed() {
+		// the dead address is kept for a day, like any address a sync was
+		// attempted with; in which order a peerstore hands out two addresses
+		// is its own business (a map), so the retry comes when only the
+		// address of the successful pre-sync, kept for two days, is left
+		r.Advance(25 * time.Hour)
+		r.Quiesce()
+	}
 	if failed && !r.Failed() {
 		before := map[cid.Cid]bool{}
 		for _, k := range sub.Store.Keys() {
